@@ -54,6 +54,7 @@ class Intervals:
             vals = [v for _, v in e['enumerators']]
             self.enum_rng[name] = (min(vals), max(vals))
         self.used_assumptions = set()
+        self.on_call = None
 
     # -- types --------------------------------------------------------------------------
     def type_range(self, n_or_t, enum_semantic=True):
@@ -488,6 +489,10 @@ class Intervals:
             return (0, 64)
         if nm in ('__builtin_clzll',):
             return (0, 63)
+        if c['fid'] in self.p.funcs and self.on_call is not None:
+            g0 = self.p.funcs[c['fid']]
+            pv0 = vals[1:] if (e['k'] == 'CXXOperatorCallExpr' and g0.cls) else vals
+            self.on_call(g0, pv0)
         if c['fid'] in self.p.funcs and depth < self.max_depth:
             g = self.p.funcs[c['fid']]
             key = (g.id, tuple(vals))
